@@ -58,7 +58,10 @@ def run(ctx):
                          "x process situations (absent, alive, exited before/after/at the last queue update) x latch x unknown-workers, "
                          "exhaustive for one entry; queue: 1-6 API records, changes between polls, a local Lock/Unlock/Cancel or a foreign state change at 5 positions relative to the poll; wp: 15-60 operations (sync listings, create, whole and split probes, start, start "
                          "command returning, kill, SIGTERM success, give-up, forget, idle behaviour, shutdown, sweep, restart) on 1-2 "
-                         "instance types with left-over instances/processes/tags; e2e: 40-90 containers (200-500 in thorough), crashing/"
+                         "instance types with left-over instances/processes/tags, probe timeout 1 ns in 1/3 of the scenarios, directed strata "
+                         "(probe answered before the process exists and applied after the start command returned, then kill/forget/start again; "
+                         "instance shut down with a live runner, Destroy not honoured, kill succeeds, next start), the stub VMs' live processes "
+                         "recorded after every operation, a watchdog expiry (20 s) recorded as a STUCK observation of the case; e2e: 40-90 containers (200-500 in thorough), crashing/"
                          "broken/slow VMs, destroy failures, rate limit, external cancels, hold/drain, one restart. distinct by hash of "
                          "the case term; non-trivial = at least one queue/pool call (runq, sync), one StartContainer (wp), any run (e2e)",
                     extra={"e2e_notes": notes},
